@@ -155,9 +155,10 @@ Definition check_drain_on (g : config) (req : request) (impl : list N) : list N 
    erbium.conf(5) says apply-address / apply-subnet "can be provided multiple
    times"; in a YAML mapping a repeated key keeps only its last value
    (yaml-rust), so all but the last item of each kind are silently dropped.
-   For such configurations the implementation is compared with the
-   configuration as YAML delivers it; if that agrees the case is reported as
-   known finding 2, otherwise with its own verdict. *)
+   When the implementation does not do what the manual says for such a
+   configuration, it is compared with the configuration as YAML delivers it;
+   if that agrees the case is reported as known finding 2, otherwise with the
+   verdict against the manual. *)
 Definition kind_of (i : aitem) : N :=
   match i with AAddr _ => 0 | ARange _ _ => 1 | ASubnet _ _ => 2 end.
 Fixpoint last_of_kind (l : list aitem) : list aitem :=
@@ -186,14 +187,18 @@ Definition with_yaml_view (check : config -> request -> list N -> list N) (ts : 
   | Some (g, r) =>
     match tok_request r with
     | Some (req, impl) =>
-      if existsb has_dup (g_policies g) then
-        let g' := {| g_dns := g_dns g; g_search := g_search g; g_portal := g_portal g;
-                     g_addresses := g_addresses g; g_policies := map yaml_view (g_policies g) |} in
-        match check g' req impl with
-        | [0; _] => v_known 2
-        | v => v
-        end
-      else check g req impl
+      match check g req impl with
+      | [0; t] => [0; t]                 (* does what the manual says *)
+      | v =>
+        if existsb has_dup (g_policies g) then
+          let g' := {| g_dns := g_dns g; g_search := g_search g; g_portal := g_portal g;
+                       g_addresses := g_addresses g; g_policies := map yaml_view (g_policies g) |} in
+          match check g' req impl with
+          | [0; _] => v_known 2
+          | _ => v
+          end
+        else v
+      end
     | None => v_bad
     end
   | None => v_bad
